@@ -112,7 +112,7 @@ static bool is_ref_op(uint8_t k) { return k == O_RAR || k == O_RSW || k == O_ROT
 static bool is_elem_op(uint8_t k) { return k >= O_XR && k <= O_XDES; }
 static bool is_c01_op(uint8_t k)
 {
-    return k == O_NEW || k == O_DEF || k == O_EB || k == O_PB || k == O_ER1 || k == O_ER2 || k == O_CL || k == O_RS;
+    return k == O_NEW || k == O_DEF || k == O_EB || k == O_PB || k == O_ER1 || k == O_ER2 || k == O_CL || k == O_RS || k == O_FILL;
 }
 
 static bool has_prop(const std::string& props, const std::string& p)
@@ -477,6 +477,7 @@ int main(int argc, char** argv)
         else if (a == "--replay") cli.replay = next();
         else if (a == "--fail-at") cli.fail_at = std::atoi(next().c_str());
         else if (a == "--fault-ops") cli.prm.fault_ops = std::atoi(next().c_str());
+        else if (a == "--wide") cli.prm.wide = std::atoi(next().c_str());
         else if (a == "--max-states") cli.max_states = std::atol(next().c_str());
         else if (a == "--no-terminal") cli.terminal = false;
         else if (a == "--faults") cli.faults = std::atoi(next().c_str());
